@@ -223,7 +223,7 @@ def main(argv=None):
             new_led[u.name] = {'ast_sha256': desc['ast_sha256'], 'obligations': len(r['obligations']),
                                'labels': sorted(set(names)), 'closure': {q: closure_now[q] for q in r['inlined'] if q in closure_now}}
             old = led.get(u.name)
-            if old and not changed and old['obligations'] != len(r['obligations']) and not r['errors']:
+            if old and not changed and not args.update_ledger and old['obligations'] != len(r['obligations']) and not r['errors']:
                 crashes.append((u.name, 'ledger: obligation count %d != %d for unchanged function'
                                 % (len(r['obligations']), old['obligations'])))
         else:
